@@ -11,6 +11,9 @@ from . import _placement as P
 
 THEOREMS = [
     'C03_placement_total : in_domain ec er children -> exists o, grid_placement_run ec er flow children = Ok o',
+    'C03_placement_estimate_covers : ... exists cc rc, compute_grid_size_estimate ec er children = Ok (cc, rc) /\\ ... /\\ '
+    'Forall (fun c => axis_fits (c_col c) ec cc /\\ axis_fits (c_row c) er rc) children',
+    'C03_placement_search_both_terminates : fuel >= (end_s - sidx) * (primary_len + 2) + (end_p + 2 - pidx) + 2 -> search_both ... = Ok ...',
 ]
 
 
@@ -83,7 +86,6 @@ def run(rep, tier, seed, replay=None):
             rep.add_broken('build', 'harness (release)', out[-1500:])
             return
         s, i = replay['fuzz']
-        done, fails = fuzz(binp, s, 1) if False else (0, [])
         lines, status = P.run_stream('%s c03 fuzz %d %d 1' % (binp, s, i), idle_timeout=5.0, total_timeout=30)
         txt = '\n'.join(lines)
         rep.cov['fuzz_evaluations'] = 1
@@ -98,7 +100,6 @@ def run(rep, tier, seed, replay=None):
         rep.cov['samples'].append({'theorem': t})
     # a placement case on which the implementation panicked / died is a counterexample to totality
     seen = 0
-    panics = [s for s in rep.cov.get('samples', []) if False]
     for d in deaths[:3]:
         rep.add_violation('grid placement did not return (%s) -- %s' % (d['status'], P.describe(d['case'])),
                           {'case': d['case'], 'cmd': 'vh c08 one %s' % ' '.join(str(x) for x in d['case'])})
